@@ -904,8 +904,8 @@ impl<'a> CompilerState<'a> {
                 let size = if let Some(x) = px.next() {
                     let start = x.as_span().start();
                     let n = self.parse_calc(x.into_inner())?;
-                    if !(0..=65536).contains(&n) {
-                        return Err(self.syntax_error("Bad size of assembler code", start));
+                    if n < 0 {
+                        return Err(self.syntax_error("Negative size of assembler code", start));
                     }
                     Some(n as u32)
                 } else {
